@@ -3,12 +3,21 @@
     [arena_insert] it represents [insert_tree] of that tree, again with consistent links. *)
 From Coq Require Import List NArith ZArith Bool Lia Permutation Setoid Morphisms.
 Import ListNotations.
-Require Import ITree.Model.Common ITree.Model.RBTree ITree.Model.MapModel ITree.Model.ArenaModel.
-Require Import ITree.Model.Pool ITree.Proofs.RBElems ITree.Proofs.Subtree ITree.Proofs.TreeLookup ITree.Proofs.PoolProofs ITree.Proofs.MapProofs.
+Require Import ITree.Model.Common ITree.Model.RBTree ITree.Model.ArenaModel.
+Require Import ITree.Proofs.RBElems ITree.Proofs.Subtree ITree.Proofs.TreeLookup.
 Local Open Scope N_scope.
 
-Notation mtree := (tree ment).
-Notation mslots := (slots ment).
+(** Everything is generic in the entity type [ent] (an implicit argument of every definition and
+    lemma once the section is closed) and in the key function [key_of] (explicit, first argument, of
+    the few statements about the descent of insertion). *)
+Section ArenaProofs.
+Context {ent : Type}.
+
+Notation anode := (anode ent).
+Notation astate := (astate ent).
+Notation mtree := (tree ent).
+Notation mslots := (slots ent).
+Implicit Types s : astate.
 
 (** ** representation *)
 Definition is_red (c: color) : bool := match c with Red => true | Black => false end.
@@ -86,7 +95,7 @@ Lemma Rep_set_red s p x t j c : Rep s p x t -> NoDup (mslots t) ->
   Rep (set_red s j (is_red c)) p x (paint_slot j c t).
 Proof.
   induction 1 as [p|p i c0 l e r Hi Hp Hc He Hl IHl Hr IHr]; intros ND; simpl; [constructor|].
-  destruct (NoDup_node ment _ _ _ _ _ ND) as (NDl & NDr & Hil & Hir & Hlr).
+  destruct (NoDup_node ent _ _ _ _ _ ND) as (NDl & NDr & Hil & Hir & Hlr).
   unfold set_red. destruct (N.eqb_spec i j) as [->|Hne].
   - constructor; rewrite ?nodes_setn_same; simpl; auto.
     + eapply Rep_frame; [exact Hl|]. intros k Hk. apply nodes_setn_other. intros ->. contradiction.
@@ -96,8 +105,8 @@ Qed.
 
 (** ** contexts (zippers) *)
 Inductive frame :=
-| FL (c: color) (i: N) (e: ment) (r: mtree)     (* the hole is the left child of node [i] *)
-| FR (c: color) (l: mtree) (i: N) (e: ment).    (* the hole is the right child of node [i] *)
+| FL (c: color) (i: N) (e: ent) (r: mtree)     (* the hole is the left child of node [i] *)
+| FR (c: color) (l: mtree) (i: N) (e: ent).    (* the hole is the right child of node [i] *)
 Definition ctx := list frame.                   (* innermost frame first *)
 
 Definition plug1 (f: frame) (t: mtree) : mtree :=
@@ -483,9 +492,8 @@ Proof.
 Qed.
 
 (** ** the tree-level insertion seen through a context *)
-Notation ins := (ins ment mkey).
-Notation up_left := (up_left ment).
-Notation up_right := (up_right ment).
+Notation up_left := (up_left ent).
+Notation up_right := (up_right ent).
 
 Definition up1 (f: frame) (ts: mtree * status) : mtree * status :=
   match f with
@@ -495,32 +503,15 @@ Definition up1 (f: frame) (ts: mtree * status) : mtree * status :=
 Fixpoint climb (k: ctx) (ts: mtree * status) : mtree * status :=
   match k with [] => ts | f :: k' => climb k' (up1 f ts) end.
 
-Definition on_path (ne: ment) (f: frame) : Prop :=
-  match f with
-  | FL _ _ e _ => Z.ltb (mkey ne) (mkey e) = true
-  | FR _ _ _ e => Z.ltb (mkey ne) (mkey e) = false
-  end.
-
-Lemma ins_plug1 f t ns ne : on_path ne f -> ins (plug1 f t) ns ne = up1 f (ins t ns ne).
-Proof.
-  destruct f as [c i e r|c l i e]; simpl; intros ->; destruct (ins t ns ne); reflexivity.
-Qed.
-
-Lemma ins_plug k : forall t ns ne, Forall (on_path ne) k -> ins (plug k t) ns ne = climb k (ins t ns ne).
-Proof.
-  induction k as [|f k IH]; intros t ns ne HP; simpl; [reflexivity|].
-  inversion HP; subst. rewrite IH by assumption. rewrite ins_plug1 by assumption. reflexivity.
-Qed.
-
 Lemma climb_ok k : forall t, climb k (t, Ok) = (plug k t, Ok).
 Proof. induction k as [|f k IH]; intros t; simpl; [reflexivity|]. destruct f; simpl; apply IH. Qed.
 
 (** ** helpers for the repair loop *)
-Notation is_red_node := (is_red_node ment).
-Notation paint := (paint ment).
-Notation finish_insert := (finish_insert ment).
-Notation fix_ins_left := (fix_ins_left ment).
-Notation fix_ins_right := (fix_ins_right ment).
+Notation is_red_node := (is_red_node ent).
+Notation paint := (paint ent).
+Notation finish_insert := (finish_insert ent).
+Notation fix_ins_left := (fix_ins_left ent).
+Notation fix_ins_right := (fix_ins_right ent).
 
 Lemma uncle_test s g x u : Rep s g x u -> (negb (N.eqb x EMPTY) && red (nodes s x))%bool = is_red_node u.
 Proof.
@@ -862,8 +853,7 @@ Proof.
 Qed.
 
 (** ** linking the new node, the descent, and the whole insertion *)
-Notation insert_tree := (insert_tree ment mkey).
-Notation height := (height ment).
+Notation height := (height ent).
 
 Lemma link_left s k c i e0 r ni e :
   RepC s k -> Rep s (owner k) (hole_link s k) (T c E i e0 r) ->
@@ -938,6 +928,30 @@ Qed.
 Lemma height_E_iff (t: mtree) : t <> E -> (1 <= height t)%nat.
 Proof. destruct t; [congruence|]. simpl. lia. Qed.
 
+(* only the descent looks inside an entity, through the key function *)
+Variable key_of : ent -> Z.
+Notation ins := (ins ent key_of).
+Notation insert_tree := (insert_tree ent key_of).
+Notation insert_descend := (insert_descend key_of).
+Notation arena_insert := (arena_insert key_of).
+
+Definition on_path (ne: ent) (f: frame) : Prop :=
+  match f with
+  | FL _ _ e _ => Z.ltb (key_of ne) (key_of e) = true
+  | FR _ _ _ e => Z.ltb (key_of ne) (key_of e) = false
+  end.
+
+Lemma ins_plug1 f t ns ne : on_path ne f -> ins (plug1 f t) ns ne = up1 f (ins t ns ne).
+Proof.
+  destruct f as [c i e r|c l i e]; simpl; intros ->; destruct (ins t ns ne); reflexivity.
+Qed.
+
+Lemma ins_plug k : forall t ns ne, Forall (on_path ne) k -> ins (plug k t) ns ne = climb k (ins t ns ne).
+Proof.
+  induction k as [|f k IH]; intros t ns ne HP; simpl; [reflexivity|].
+  inversion HP; subst. rewrite IH by assumption. rewrite ins_plug1 by assumption. reflexivity.
+Qed.
+
 Lemma descend_spec e ni s : ni <> EMPTY -> forall t k fuel,
   t <> E -> RepC s k -> Rep s (owner k) (hole_link s k) t -> Forall (on_path e) k ->
   NoDup (mslots t ++ cslots k) -> ~ In ni (mslots t ++ cslots k) ->
@@ -949,7 +963,7 @@ Proof.
   destruct fuel as [|f]; [lia|]. cbn [insert_descend].
   pose proof Ht as Ht0. apply Rep_inv_T in Ht. destruct Ht as (Hx & Ni & Hp & Hc & He & Hl & Hr).
   rewrite Hx, He. cbn [RBTree.ins]. cbn [height] in Hfuel.
-  destruct (Z.ltb (mkey e) (mkey e0)) eqn:Hlt.
+  destruct (Z.ltb (key_of e) (key_of e0)) eqn:Hlt.
   - destruct (N.eqb_spec (lft (nodes s i)) EMPTY) as [El|Nl].
     + assert (l = E) by (apply (Rep_E_iff _ _ _ _ Hl); exact El). subst l.
       unfold insert_as_left.
@@ -969,7 +983,7 @@ Proof.
       * cbn [cslots fslots fslot fsib]. rewrite slots_T in Hni. rewrite <- app_assoc in Hni. exact Hni.
       * cbn [length]. lia.
       * cbn [hole_link flink] in Hs'. exists s'. split; [exact Hs'|].
-        cbn [climb up1] in HR'. destruct (RBTree.ins ment mkey l ni e) as (l' & st). exact HR'.
+        cbn [climb up1] in HR'. destruct (RBTree.ins ent key_of l ni e) as (l' & st). exact HR'.
   - destruct (N.eqb_spec (rgt (nodes s i)) EMPTY) as [Er|Nr].
     + assert (r = E) by (apply (Rep_E_iff _ _ _ _ Hr); exact Er). subst r.
       unfold insert_as_right.
@@ -992,7 +1006,7 @@ Proof.
         repeat (rewrite ?in_app_iff in K |- *; cbn [In] in K |- *). tauto.
       * cbn [length]. lia.
       * cbn [hole_link flink] in Hs'. exists s'. split; [exact Hs'|].
-        cbn [climb up1] in HR'. destruct (RBTree.ins ment mkey r ni e) as (r' & st). exact HR'.
+        cbn [climb up1] in HR'. destruct (RBTree.ins ent key_of r ni e) as (r' & st). exact HR'.
 Qed.
 
 (** ** the theorem *)
@@ -1058,50 +1072,23 @@ Proof.
     rewrite IHl, IHr by lia. rewrite Hc, He, col_of_is_red. reflexivity.
 Qed.
 
-(* non-vacuity, and the arena model run on a concrete sequence: ten insertions, read back, compared
-   with the tree-level model *)
-Definition empty_arena : astate :=
-  {| nodes := fun _ => {| par := 0; lft := 0; rgt := 0; red := true; aent := (0%Z, 0%Z) |}; aroot := EMPTY |}.
+End ArenaProofs.
 
-Fixpoint arena_inserts (s: astate) (next: N) (ks: list Z) : res astate :=
-  match ks with
-  | [] => Ret s
-  | k :: ks' => match arena_insert 64 s next (k, k) with Ret s' => arena_inserts s' (next + 1) ks' | Err e => Err e end
+(* the tactics again, for the files that build on this one (Ltac definitions do not survive the section) *)
+Ltac neq_simpl :=
+  repeat match goal with
+  | |- context [N.eqb ?a ?a] => rewrite (N.eqb_refl a)
+  | H: ?a <> ?b |- context [N.eqb ?a ?b] => rewrite (proj2 (N.eqb_neq a b) H)
+  | H: ?b <> ?a |- context [N.eqb ?a ?b] => rewrite (proj2 (N.eqb_neq a b) (not_eq_sym H))
   end.
-Fixpoint tree_inserts (t: mtree) (next: N) (ks: list Z) : mtree :=
-  match ks with [] => t | k :: ks' => tree_inserts (insert_tree t next (k, k)) (next + 1) ks' end.
 
-Example arena_run_agrees :
-  let ks := [50; 20; 70; 10; 30; 25; 27; 26; 60; 65; 5; 1; 80; 90; 85]%Z in
-  match arena_inserts empty_arena 1 ks with
-  | Ret s => read_tree 64 s EMPTY (aroot s) = Some (tree_inserts E 1 ks)
-  | Err _ => False
-  end.
-Proof. vm_compute. reflexivity. Qed.
+Ltac arena_eval :=
+  repeat (rewrite ?nodes_set_par, ?nodes_set_lft, ?nodes_set_rgt, ?nodes_set_red, ?nodes_set_root; neq_simpl;
+          cbn [par lft rgt red aent with_par with_lft with_rgt with_red aroot set_root set_par set_lft set_rgt set_red setn]).
 
-(** ** the map / set step: MapTree::insert on the arena *)
-Lemma pool_get_slot_le used p i p' : pool_wf used p -> pool_get p = Some (i, p') -> i <= blen p.
-Proof.
-  intros (ND & Hin & Hc & Hb) H. unfold pool_get in H. destruct (unused p) as [|x rest] eqn:Hu.
-  - destruct (N.eqb (ucap p) 0); [discriminate|]. inversion H; subst. lia.
-  - inversion H; subst. assert (Hx: In i (used ++ i :: rest)) by (apply in_or_app; simpl; auto).
-    apply Hin in Hx. lia.
-Qed.
+Ltac nd_norm :=
+  repeat (rewrite ?slots_T, ?NoDup_app_iff, ?NoDup_cons_iff, ?in_app_iff in *; cbn [In] in *);
+  repeat match goal with H: context [In _ (_ ++ _)] |- _ => setoid_rewrite in_app_iff in H end;
+  cbn [In] in *.
 
-Theorem arena_map_insert (a: astate) (s: mstate) (k v: Z) :
-  MInv s -> (forall e, In e (ments (root s)) -> fst e <> k) ->
-  Rep a EMPTY (aroot a) (root s) -> blen (pl s) < EMPTY ->
-  exists s' a' i p', pool_get (pl s) = Some (i, p') /\ m_insert s k v = Ret s' /\
-    arena_insert (2 * height (root s) + 2) a i (k, v) = Ret a' /\
-    Rep a' EMPTY (aroot a') (root s') /\ MInv s'.
-Proof.
-  intros HI Habs HR Hb. pose proof HI as (ND & Hrb & Hbst & Hwf).
-  destruct (pool_get_wf _ _ Hwf) as (i & p' & Hg & Hni & Hi0 & Hwf').
-  pose proof (pool_get_slot_le _ _ _ _ Hwf Hg) as Hle.
-  assert (Nie: i <> EMPTY) by lia.
-  destruct (arena_insert_refines a (root s) i (k, v) (2 * height (root s) + 2) HR ND Hni Nie (le_n _)) as (a' & Ha' & HR').
-  assert (Hs': m_insert s k v = Ret {| root := insert_tree (root s) i (k, v); pl := p' |}).
-  { unfold m_insert. rewrite Hg. reflexivity. }
-  eexists _, a', i, p'. split; [exact Hg|]. split; [exact Hs'|]. split; [exact Ha'|]. split; [exact HR'|].
-  destruct (m_insert_spec s k v HI Habs) as (s2 & i2 & Hr2 & HI2 & _). rewrite Hs' in Hr2. inversion Hr2; subst. exact HI2.
-Qed.
+Ltac slot_in := repeat (rewrite ?slots_T, ?in_app_iff; cbn [In]); tauto.
